@@ -66,6 +66,12 @@ CHECKS.update({
             "exception/return outcome of check_datasets and check_input_section; callback spy for 'refused before matching'",
             "every single fault of the catalogue on several bases, sampled pairs", "3 C17"),
 })
+CHECKS.update({
+    "C19": ("observation at the save_results boundary (wrapper captures the datasets that are saved) compared with an "
+            "independent read of the output tree; replay relation: cfg/config.json fed back must reproduce the rasters; "
+            "console entry point run as a subprocess",
+            "generated configurations (bands, validation/filling, NaN invalid_disparity, grids, georeferencing, masks)", "3 C19"),
+})
 NOTES = {}
 
 def main():
